@@ -154,6 +154,7 @@ class Plane:
         return Plane(
             reference_point=np.around(self.reference_point, position_decimals),
             normal=np.around(self.normal, direction_decimals),
+            direction_decimals=direction_decimals,
         )
 
     def serialize(self, position_decimals=None, direction_decimals=None):
